@@ -210,6 +210,8 @@ pub(super) fn start_cleanup_thread(
                     writes_direct,
                 )
                 .ok();
+                #[cfg(feature = "verif_hooks")]
+                crate::verif_hooks::sched("cleanup_done");
             }
         })?,
     })
